@@ -260,6 +260,37 @@ StatKey(f) == IF f = "untrimmed_output" THEN "discard_untrimmed" ELSE f
 Cats == {"too_short", "too_long", "too_many_n", "too_many_expected_errors", "too_high_average_error_rate",
          "casava_filtered", "discard_trimmed", "discard_untrimmed"}
 
+\* ---- the report against the *recorded* intermediate reads (no model involved): C04's "the quality-trimmed,
+\* poly-A-trimmed and with-adapter counts equal the sums over the individual reads" ----
+RECURSIVE RemovedBy(_, _, _, _, _)
+RemovedBy(chain, labs, second, i, prevLen) ==          \* bases removed by the stages labelled in labs, for one mate
+  IF i > Len(chain) THEN 0
+  ELSE LET st == chain[i]
+           lab == IF second THEN st.l2 ELSE st.l1
+           len == IF second THEN Len(st.s2) ELSE Len(st.s1)
+       IN (IF lab \in labs THEN prevLen - len ELSE 0) + RemovedBy(chain, labs, second, i + 1, len)
+AllChains(e) == \A k \in 1..Len(e.reads) : e.reads[k].obs.chain # <<>>
+HasMatchesRecorded(chain, second) ==
+  \E i \in 1..Len(chain) : chain[i].hasm /\ (IF second THEN chain[i].m2 # <<>> ELSE chain[i].m1 # <<>>)
+MatchesKnown(chain) == \A i \in 1..Len(chain) : (chain[i].l1 = "adapter" \/ chain[i].l2 = "adapter") => chain[i].hasm
+CheckReportRecorded(e) ==
+  LET rp == e.report
+      cfg == e.cfg
+      n == Len(e.reads)
+      inLen(k, second) == IF second THEN Len(e.reads[k].in2.seq) ELSE Len(e.reads[k].in1.seq)
+      qt(second) == SumTo([k \in 1..n |-> RemovedBy(e.reads[k].obs.chain, {"nextseq", "qtrim"}, second, 1, inLen(k, second))], n)
+      pa(second) == SumTo([k \in 1..n |-> RemovedBy(e.reads[k].obs.chain, {"polya"}, second, 1, inLen(k, second))], n)
+      wa(second) == Cardinality({k \in 1..n : HasMatchesRecorded(e.reads[k].obs.chain, second)})
+  IN (n > 0 /\ AllChains(e)) =>
+     /\ Rep(e.id, "Report.QualityTrimmedIsSumOverReads",
+             (rp.qt1 >= 0 => rp.qt1 = qt(FALSE)) /\ ((cfg.paired /\ rp.qt2 >= 0) => rp.qt2 = qt(TRUE)))
+     /\ Rep(e.id, "Report.PolyATrimmedIsSumOverReads",
+             cfg.polya => (rp.pa1 = pa(FALSE) /\ (cfg.paired => rp.pa2 = pa(TRUE))))
+     /\ Rep(e.id, "Report.WithAdaptersIsCountOverReads",
+             (\A k \in 1..n : MatchesKnown(e.reads[k].obs.chain)) =>
+                /\ (cfg.ads1 # <<>> => rp.with1 = wa(FALSE))
+                /\ ((cfg.paired /\ cfg.ads2 # <<>>) => rp.with2 = wa(TRUE)))
+
 CheckReport(e) ==
   LET rp == e.report
       cfg == e.cfg
@@ -360,6 +391,7 @@ Check(e) ==
   LET miss == \E k \in 1..Len(e.reads) : Needs(e.cfg, e.reads[k].table, e.reads[k].in1, e.reads[k].in2) # {}
   IN /\ \A k \in 1..Len(e.reads) : CheckRead(e, k)
      /\ (Has(e, "report") /\ ~miss) => CheckReport(e)
+     /\ Has(e, "report") => CheckReportRecorded(e)
      /\ (Has(e, "stats") /\ ~miss) => CheckStats(e)
      /\ (Has(e, "demux") /\ e.cfg.demux # "none") => CheckDemux(e)
 
